@@ -325,7 +325,11 @@ func run(id, tier, repo, verif, only string, workers int, trace, noReplay bool, 
 			}
 		}
 		for t, s := range h.extra {
-			if err := addOverlay(filepath.Join(repo, t), filepath.Join(repo, s)); err != nil {
+			src := filepath.Join(repo, s)
+			if rest, ok := strings.CutPrefix(s, "harness:"); ok {
+				src = filepath.Join(verif, "harness", rest)
+			}
+			if err := addOverlay(filepath.Join(repo, t), src); err != nil {
 				return fail("overlay %s: %v", t, err)
 			}
 		}
